@@ -92,6 +92,12 @@ func runReal(src string, decide func(k int) int, maxTicks int64) (rr realRun) {
 		if r == rt {
 			rr.ticks++
 			if rr.ticks > maxTicks {
+				if rr.ticks > maxTicks+2000 {
+					if os.Getenv("VERIF_DEBUG") != "" {
+						fmt.Fprintf(os.Stderr, "AbortRun at tick %d\n", rr.ticks)
+					}
+					core.AbortRun() // the panic below keeps being swallowed
+				}
 				panic(tickAbort{})
 			}
 		}
@@ -190,36 +196,56 @@ func runModel(pr *Program, decide func(k int) int, budget int) modelRun {
 func (e *ctlsim) Run(t *core.Tape, want bool) *core.Result {
 	res := &core.Result{}
 	pr, feat := genProgram(&t.W, e.prop)
+	// buggify: in a third of the runs the VM's value, try and call stacks move to a fresh backing array on every growth
+	// (a stale slice or pointer held across code that grows them is otherwise visible only at power-of-two sizes)
+	if t.W.Draw(3) == 2 {
+		goja.VerifForceStackRealloc = func() bool { return true }
+		defer func() { goja.VerifForceStackRealloc = nil }()
+		res.Count("buggify-stack-realloc-runs", 1)
+	}
 	src := printProgram(pr)
 	const budget = 60000
 
-	zero := func(int) int { return 0 }
-	pilot := runModel(pr, zero, budget)
+	pilot := runModel(pr, func(int) int { return 0 }, budget)
 	if pilot.over {
 		res.OutOfScope = "generated program exceeds the model's step budget without any decision"
 		return res
 	}
 
-	// decision schedule
+	// decision schedule. Decisions are placed ADAPTIVELY: the i-th decision lands on a probe that the run, as steered by
+	// the first i-1 decisions, actually reaches after them (the reference interpreter is re-run to learn the new path).
+	// Compound scenarios (an exit inside the finally block entered because of an earlier exit, ...) would be very rare
+	// with independent uniform positions.
 	S := &t.S
 	dec := map[int]int{}
-	span := pilot.probes + 4
-	nd := 1 + S.Draw(4)
-	for i := 0; i < nd; i++ {
-		k := S.Draw(span)
-		dec[k] = 1 + S.Draw(7)
-	}
-	intr := false
-	if S.Draw(8) == 7 {
-		dec[S.Draw(span)] = decInterrupt
-		intr = true
-	}
-	// later decisions: the path changes after the first one, so also decide a few positions relative to it
-	extra := S.Draw(3)
-	for i := 0; i < extra; i++ {
-		dec[span+S.Draw(span)] = 1 + S.Draw(7)
-	}
 	decide := func(k int) int { return dec[k] }
+	nd := 1 + S.Draw(4)
+	last, reach := -1, pilot.probes
+	intr := false
+	for i := 0; i < nd; i++ {
+		if reach-last-1 <= 0 {
+			break
+		}
+		k := last + 1 + S.Draw(reach-last-1)
+		if S.Draw(3) == 0 {
+			k = last + 1 + S.Draw(min(reach-last-1, 6)) // soon after the previous decision
+		}
+		v := 1 + S.Draw(7)
+		if i == nd-1 && S.Draw(8) == 7 {
+			v = decInterrupt
+			intr = true
+		}
+		dec[k] = v
+		last = k
+		if i < nd-1 {
+			probe := runModel(pr, decide, budget)
+			if probe.over {
+				res.OutOfScope = "model step budget exceeded under the decision schedule"
+				return res
+			}
+			reach = probe.probes
+		}
+	}
 
 	mr := runModel(pr, decide, budget)
 	if mr.over {
